@@ -1480,7 +1480,7 @@ class Interp(object):
         if isinstance(v, Obj):
             f = v.cls.lookup('__iter__')
             if f is not _MISSING:
-                return self.iterate(self.call(BoundMethod(f, v), [], {}))
+                return self.iterate(self.call(BoundMethod(f, v), [], {}), allow_guarded)
             f = v.cls.lookup('__getitem__')
             if f is not _MISSING:
                 out = []
